@@ -187,35 +187,50 @@ theorem recvEof_nsu (st : State) : suB st.recvEof = true → suB st = true := by
 structure SK (sv : Bool) (s s' : Streams) : Prop where
   live : ∀ j, Live s' j → Live s j
   st : ∀ j, Live s' j → SR sv (s.stream j) (s'.stream j)
+  nx : ∀ n', s'.actions.send.nextStreamId = some n' → ∃ n, s.actions.send.nextStreamId = some n ∧ n ≤ n'
 
-theorem SK.refl (s : Streams) : SK sv s s := ⟨fun _ h => h, fun _ _ => SR.refl _⟩
+theorem SK.refl (s : Streams) : SK sv s s := ⟨fun _ h => h, fun _ _ => SR.refl _, fun n h => ⟨n, h, Nat.le_refl _⟩⟩
 theorem SK.trans {a b c : Streams} (h1 : SK sv a b) (h2 : SK sv b c) : SK sv a c :=
-  ⟨fun j h => h1.live j (h2.live j h), fun j h => (h1.st j (h2.live j h)).trans (h2.st j h)⟩
+  ⟨fun j h => h1.live j (h2.live j h), fun j h => (h1.st j (h2.live j h)).trans (h2.st j h),
+   fun n'' h => by
+     obtain ⟨n', hn', hle'⟩ := h2.nx n'' h
+     obtain ⟨n, hn, hle⟩ := h1.nx n' hn'
+     exact ⟨n, hn, Nat.le_trans hle hle'⟩⟩
 theorem SK.of_fst_eq {s : Streams} {α : Type} {p : Streams × α} {a : Streams} {x : α}
     (h : p = (a, x)) (e : SK sv s p.1) : SK sv s a := by subst h; exact e
-theorem SK.of_store {s s' : Streams} (h : s'.store = s.store) : SK sv s s' :=
-  ⟨fun j hl => by unfold Live at *; rw [← h]; exact hl, fun j _ => by rw [stream_of_store_eqP h]; exact SR.refl _⟩
+theorem SK.of_store {s s' : Streams} (h : s'.store = s.store)
+    (hn : s'.actions.send.nextStreamId = s.actions.send.nextStreamId) : SK sv s s' :=
+  ⟨fun j hl => by unfold Live at *; rw [← h]; exact hl, fun j _ => by rw [stream_of_store_eqP h]; exact SR.refl _,
+   fun n h' => ⟨n, hn ▸ h', Nat.le_refl _⟩⟩
 
-theorem panic_sk (s : Streams) (m : String) : SK sv s (s.panic m) := .of_store (panic_store _ _)
+theorem panic_sk (s : Streams) (m : String) : SK sv s (s.panic m) := .of_store (panic_store _ _) (by rw [panic_actions])
 theorem unsup_sk (s : Streams) (m : String) : SK sv s (s.unsup m) := by
   unfold Streams.unsup; split
   · exact .refl _
-  · exact .of_store rfl
-theorem wake_sk (s : Streams) (t : List String) : SK sv s (s.wake t) := .of_store rfl
-theorem notifyTask_sk (s : Streams) : SK sv s s.notifyTask := .of_store (notifyTask_store s)
-theorem modPrio_sk (s : Streams) (f : Prioritize → Prioritize) : SK sv s (s.modPrio f) := .of_store rfl
-theorem modRecv_sk (s : Streams) (f : Recv → Recv) : SK sv s (s.modRecv f) := .of_store rfl
-theorem modSend_sk (s : Streams) (f : Send → Send) : SK sv s (s.modSend f) := .of_store rfl
-theorem modCounts_sk (s : Streams) (f : Counts → Counts) : SK sv s (s.modCounts f) := .of_store rfl
-theorem modCountsA_sk (s : Streams) (w : String) (f : Counts → Option Counts) : SK sv s (s.modCountsA w f) :=
-  .of_store (modCountsA_store' _ _ _)
-theorem setQ_sk (s : Streams) (q : QName) (l : List Nat) : SK sv s (s.setQ q l) := .of_store (setQ_store _ _ _)
-theorem setMisc_sk (s : Streams) (a : Actions) (refs leaked : Nat) (wk : List String) (un : Option String) :
-    SK sv s { s with actions := a, refs := refs, recvBufferLeaked := leaked, wakes := wk, unsupported := un } := .of_store rfl
-theorem setCounts_sk (s : Streams) (c : Counts) : SK sv s { s with counts := c } := .of_store rfl
+  · exact .of_store rfl rfl
+theorem wake_sk (s : Streams) (t : List String) : SK sv s (s.wake t) := .of_store rfl rfl
+theorem notifyTask_sk (s : Streams) : SK sv s s.notifyTask := by
+  unfold Streams.notifyTask; split
+  · exact .of_store rfl rfl
+  · exact .refl _
+theorem modPrio_sk (s : Streams) (f : Prioritize → Prioritize) : SK sv s (s.modPrio f) := .of_store rfl rfl
+theorem modRecv_sk (s : Streams) (f : Recv → Recv) : SK sv s (s.modRecv f) := .of_store rfl rfl
+theorem modSend_sk (s : Streams) (f : Send → Send) (h : ∀ p, (f p).nextStreamId = p.nextStreamId) : SK sv s (s.modSend f) :=
+  .of_store rfl (h _)
+theorem modCounts_sk (s : Streams) (f : Counts → Counts) : SK sv s (s.modCounts f) := .of_store rfl rfl
+theorem modCountsA_sk (s : Streams) (w : String) (f : Counts → Option Counts) : SK sv s (s.modCountsA w f) := by
+  unfold Streams.modCountsA; split
+  · exact .of_store rfl rfl
+  · exact panic_sk _ _
+theorem setQ_sk (s : Streams) (q : QName) (l : List Nat) : SK sv s (s.setQ q l) :=
+  .of_store (setQ_store _ _ _) (by cases q <;> rfl)
+theorem setMisc_sk (s : Streams) (a : Actions) (refs leaked : Nat) (wk : List String) (un : Option String)
+    (ha : a.send.nextStreamId = s.actions.send.nextStreamId) :
+    SK sv s { s with actions := a, refs := refs, recvBufferLeaked := leaked, wakes := wk, unsupported := un } := .of_store rfl ha
+theorem setCounts_sk (s : Streams) (c : Counts) : SK sv s { s with counts := c } := .of_store rfl rfl
 
 theorem setStream_sk (s : Streams) (st' : Stream) (h : SR sv (s.stream st'.key) st') : SK sv s (s.setStream st') := by
-  refine ⟨fun j hl => (SameKeys.setStream _ _).live.mp hl, fun j _ => ?_⟩
+  refine ⟨fun j hl => (SameKeys.setStream _ _).live.mp hl, fun j _ => ?_, fun n h' => ⟨n, h', Nat.le_refl _⟩⟩
   rcases setStream_stream s st' j with e | ⟨e, hj, _⟩
   · rw [e]; exact SR.refl _
   · rw [e, hj]; exact h
@@ -282,7 +297,7 @@ theorem remove_sk (s : Streams) (k n : Nat) : SK sv s { s with store := s.store.
     subst e
     have : (s.store.remove j).get? j = some x := hx
     rw [remove_get?_self] at this; cases this
-  refine ⟨fun j hl => ?_, fun j hl => ?_⟩
+  refine ⟨fun j hl => ?_, fun j hl => ?_, fun n h' => ⟨n, h', Nat.le_refl _⟩⟩
   · obtain ⟨x, hx⟩ := hl
     have hx' : (s.store.remove k).get? j = some x := hx
     rw [get?_remove_ne _ _ _ (hne j ⟨x, hx⟩)] at hx'
@@ -294,7 +309,7 @@ theorem remove_sk (s : Streams) (k n : Nat) : SK sv s { s with store := s.store.
     rw [this]; exact SR.refl _
 
 theorem unlink_sk (s : Streams) (id : Nat) : SK sv s { s with store := s.store.unlink id } :=
-  ⟨fun _ hl => hl, fun _ _ => SR.refl _⟩
+  ⟨fun _ hl => hl, fun _ _ => SR.refl _, fun n h' => ⟨n, h', Nat.le_refl _⟩⟩
 
 theorem transitionAfter_sk (s : Streams) (k : Nat) (b : Bool) : SK sv s (s.transitionAfter k b) := by
   unfold Streams.transitionAfter
@@ -317,6 +332,8 @@ theorem transitionAfter_sk (s : Streams) (k : Nat) (b : Bool) : SK sv s (s.trans
     exact h4.trans (remove_sk _ _ _)
   · exact h2
 
+theorem drop_nil {α : Type} {l : List α} (h : l = []) : l.drop 1 = [] := by rw [h]; rfl
+
 -- ===================================================================== the peeling tactic
 
 /-- proves `SR sv x (… x …)` -/
@@ -327,7 +344,10 @@ macro "sr_tac" : tactic => `(tactic| with_reducible first
   | exact SR.of_nsu rfl rfl (fun h => h) rfl
   | exact SR.of_nsu rfl rfl (fun h => h) (recvReset_nsu _ _ _ _)
   | exact setState_sr' _ _ (handleError_nsu _ _)
-  | exact setState_sr' _ _ (recvEof_nsu _))
+  | exact setState_sr' _ _ (recvEof_nsu _)
+  | exact SR.of_nil rfl rfl rfl rfl (fun hn => ⟨hn.c, hn.po, rfl, rfl⟩)
+  | exact SR.of_nil rfl rfl rfl rfl (fun hn => ⟨hn.c, hn.po, drop_nil hn.ps, hn.bd⟩)
+  | exact SR.of_nil rfl rfl rfl rfl (fun hn => ⟨rfl, hn.po, hn.ps, hn.bd⟩))
 
 syntax "sk_side" : tactic
 macro_rules | `(tactic| sk_side) => `(tactic| (intro _; rfl))
@@ -383,7 +403,7 @@ def relHeadN (rel : Name) (arity : Nat) (sfx : String) (recordCase : Syntax) : T
 
 elab "sk_head" : tactic => do
   relHeadN ``SK 3 "_sk" (← `(tactic| first
-    | with_reducible refine SK.trans ?_ (setMisc_sk _ _ _ _ _ _)
+    | with_reducible refine SK.trans ?_ (setMisc_sk _ _ _ _ _ _ rfl)
     | with_reducible refine SK.trans ?_ (setCounts_sk _ _)))
 
 syntax "sk_step" : tactic
@@ -402,5 +422,108 @@ theorem scheduleSend_sk (s : Streams) (k : Nat) : SK sv s (s.scheduleSend k) := 
   unfold Streams.scheduleSend; sk_auto
 theorem tryAssignCapacity_sk (s : Streams) (k : Nat) : SK sv s (s.tryAssignCapacity k) := by
   unfold Streams.tryAssignCapacity; sk_auto
+
+-- ===================================================================== entries on which anything may be done
+
+/-- entry `k` is dangling, or its send half is open/closed, or it is not locally initiated: `SR` allows any update
+    that keeps key, id, state and `is_pending_push` -/
+def Opn (sv : Bool) (s : Streams) (k : Nat) : Prop :=
+  ¬ Live s k ∨ suB (s.stream k).state = false ∨ locId sv (s.stream k).id = false
+
+theorem Opn.sk {s s' : Streams} {k : Nat} (h : Opn sv s k) (hs : SK sv s s') : Opn sv s' k := by
+  by_cases hl : Live s' k
+  · have r := hs.st k hl
+    rcases h with h | h | h
+    · exact absurd (hs.live k hl) h
+    · right; left
+      cases hb : suB (s'.stream k).state with
+      | false => rfl
+      | true => rw [r.su hb] at h; cases h
+    · right; right; rw [r.id]; exact h
+  · exact .inl hl
+
+theorem SR.of_opn {a b : Stream} (hk : b.key = a.key) (hi : b.id = a.id) (hs : b.state = a.state)
+    (h2 : b.isPendingPush = a.isPendingPush) (h : suB a.state = false ∨ locId sv a.id = false) : SR sv a b := by
+  rcases h with h | h
+  · exact SR.of_nsu hk hi (fun hp => h2 ▸ hp) (by rw [hs]; exact h)
+  · exact SR.of_not_nil hk hi hs h2 (fun hl _ => by rw [h] at hl; cases hl)
+
+theorem modStream_dangling {s : Streams} {k : Nat} (h : ¬ Live s k) (f : Stream → Stream) : (s.modStream k f).store = s.store := by
+  have : s.store.get? k = none := by
+    cases hx : s.store.get? k with
+    | none => rfl
+    | some x => exact absurd ⟨x, hx⟩ h
+  unfold Streams.modStream; rw [this]; exact panic_store _ _
+
+/-- any update of an `Opn` entry that keeps key, id, state and `is_pending_push` -/
+theorem modStream_sk_opn {s : Streams} {k : Nat} (h : Opn sv s k) (f : Stream → Stream)
+    (hf : ∀ x, (f x).key = x.key ∧ (f x).id = x.id ∧ (f x).state = x.state ∧ (f x).isPendingPush = x.isPendingPush) :
+    SK sv s (s.modStream k f) := by
+  rcases h with h | h
+  · exact .of_store (modStream_dangling h f) (by unfold Streams.modStream; split; rfl; rw [panic_actions])
+  · exact modStream_sk' s k f (SR.of_opn (hf _).1 (hf _).2.1 (hf _).2.2.1 (hf _).2.2.2 h)
+
+theorem opn_of_streaming {s : Streams} {k : Nat} (h : (s.stream k).state.isSendStreaming = true) : Opn sv s k := by
+  right; left
+  generalize (s.stream k).state = st at h
+  obtain ⟨inner⟩ := st
+  cases inner with
+  | «open» l r => cases l <;> first | rfl | (simp [State.isSendStreaming] at h)
+  | halfClosedRemote p => cases p <;> first | rfl | (simp [State.isSendStreaming] at h)
+  | _ => simp [State.isSendStreaming] at h
+
+theorem opn_of_nsu {s : Streams} {k : Nat} (h : suB (s.stream k).state = false) : Opn sv s k := .inr (.inl h)
+
+/-- after `modStream k (state := st')` with `st'` open/closed -/
+theorem opn_setState (s : Streams) (k : Nat) (st' : State) (h : suB st' = false) :
+    Opn sv (s.modStream k fun st => { st with state := st' }) k := by
+  by_cases hl : Live s k
+  · right; left
+    rw [stream_modStream_live hl (fun st => { st with state := st' }) (fun _ => rfl)]; exact h
+  · left; intro hl'; exact hl ((SameKeys.modStream _ _ _).live.mp hl')
+
+theorem opn_setReset (s : Streams) (k : Nat) (r : Reason) (i : Initiator) :
+    Opn sv (s.modStreamW k fun st => st.setReset r i) k := by
+  by_cases hl : Live s k
+  · right; left
+    rw [stream_modStreamW_live hl (fun st => st.setReset r i) (fun x => (setReset_inert x r i).key)]
+    have : ((s.stream k).setReset r i).1.state = (s.stream k).state.setReset (s.stream k).id r i := by
+      unfold Stream.setReset; simp only []
+      rw [notifyRecv_state, notifyPush_state, notifySend_state]
+    rw [this]; rfl
+  · left; intro hl'; exact hl ((modStreamW_sk (sv := sv) s k _ (fun x => setReset_sr x r i)).live k hl')
+
+theorem queueFrame_sk (s : Streams) (k : Nat) (f : SFrame) (h : Opn sv s k) : SK sv s (s.queueFrame k f) := by
+  unfold Streams.queueFrame
+  exact (modStream_sk_opn h _ (fun _ => by exact ⟨rfl, rfl, rfl, rfl⟩)).trans (scheduleSend_sk _ _)
+
+theorem queueOpen_sk (s : Streams) (k : Nat) (h : Opn sv s k) : SK sv s (s.queueOpen k) := by
+  unfold Streams.queueOpen Streams.qPush
+  split
+  · exact .refl _
+  · dsimp only
+    exact (modStream_sk_opn h (fun st => st.setQueued .pendingOpen true) (fun _ => ⟨rfl, rfl, rfl, rfl⟩)).trans (setQ_sk _ _ _)
+
+theorem incNumSendStreams_sk (s : Streams) (k : Nat) (h : Opn sv s k) : SK sv s (s.incNumSendStreams k) := by
+  unfold Streams.incNumSendStreams
+  dsimp only
+  generalize hs1 : (if s.counts.canIncNumSendStreams = true then s else s.panic _) = s1
+  have h1 : SK sv s s1 := by rw [← hs1]; split; exact .refl _; exact panic_sk _ _
+  generalize hs2 : (if (s1.stream k).isCounted = true then s1.panic _ else s1) = s2
+  have h2 : SK sv s1 s2 := by rw [← hs2]; split; exact panic_sk _ _; exact .refl _
+  have h3 : SK sv s2 (s2.modCounts fun c => { c with numSendStreams := c.numSendStreams + 1 }) := modCounts_sk _ _
+  exact ((h1.trans h2).trans h3).trans
+    (modStream_sk_opn (h.sk ((h1.trans h2).trans h3)) _ (fun _ => by exact ⟨rfl, rfl, rfl, rfl⟩))
+
+theorem incNumRecvStreams_sk (s : Streams) (k : Nat) (h : Opn sv s k) : SK sv s (s.incNumRecvStreams k) := by
+  unfold Streams.incNumRecvStreams
+  dsimp only
+  generalize hs1 : (if s.counts.canIncNumRecvStreams = true then s else s.panic _) = s1
+  have h1 : SK sv s s1 := by rw [← hs1]; split; exact .refl _; exact panic_sk _ _
+  generalize hs2 : (if (s1.stream k).isCounted = true then s1.panic _ else s1) = s2
+  have h2 : SK sv s1 s2 := by rw [← hs2]; split; exact panic_sk _ _; exact .refl _
+  have h3 : SK sv s2 (s2.modCounts fun c => { c with numRecvStreams := c.numRecvStreams + 1 }) := modCounts_sk _ _
+  exact ((h1.trans h2).trans h3).trans
+    (modStream_sk_opn (h.sk ((h1.trans h2).trans h3)) _ (fun _ => by exact ⟨rfl, rfl, rfl, rfl⟩))
 
 end H2V.Lemmas.ConnNoPanicP
